@@ -161,7 +161,7 @@ class Machine(object):
             return padd({}, self.iv(e.c[0]), -1)
         if e.k == 'Index':
             b = strip(e.c[0])
-            nm = b.a.get('name')
+            nm = {'nzval_colptr': 'xlusup', 'rowind_colptr': 'xlsub'}.get(b.a.get('name'), b.a.get('name'))
             ix = self.iv(e.c[1])
             fs = self.env.get('fsupc')
             if nm == 'xlusup' and ix is not None and isinstance(fs, dict):
@@ -194,7 +194,7 @@ class Machine(object):
         e = strip(e)
         if e.k == 'Unary' and e.a['op'] == '&':
             e = strip(e.c[0])
-        if not (e.k == 'Index' and strip(e.c[0]).a.get('name') == 'lusup'):
+        if not (e.k == 'Index' and strip(e.c[0]).a.get('name') in ('lusup', 'Lval')):
             return None
         p = self.iv(e.c[1])
         if p is None:
@@ -783,3 +783,83 @@ def run_snode(chk, cid, prog, p, cfgname):
     for (node, what) in list(reps.values())[:3]:
         chk.violate(cid, '%s:%s' % (inst, re.sub(r'\W+', '_', what[:40])), loc(f, node), f.name, what, cfgname=cfgname)
     return 1
+
+
+def run_solve(chk, cid, prog, fname, cfgname):
+    """?gstrs / sp_?trsv sweep the supernodes of the finished factors (macros L_FST_SUPC, L_SUB_START, L_NZ_START).  For every dense kernel called on
+    a supernode block: the triangular operand is the first entry of the block (column 0, row 0) with order = width of the supernode and leading
+    dimension = its row count; the rectangular operand starts `order` rows below it in column 0 and has row count - order rows."""
+    f = prog.func(fname)
+    if f is None:
+        from ..run import AnalysisBroken
+        raise AnalysisBroken('%s not found' % fname)
+    chk.saw(unit=f.unit, func=f.unit + ':' + f.name)
+    reps = {}
+    nsite = [0]
+
+    def report(node, what):
+        reps.setdefault((node.line, what[:60]), (node, what))
+    loops = [x for x in f.body.walk() if x.k == 'For' and any(y.k == 'Assign' and strip(y.c[0]).k == 'Ref' and strip(y.c[0]).a.get('name') == 'fsupc' for y in x.c[3].walk())
+             and 'nsuper' in (canon(x.c[0], ids=False) + canon(x.c[1], ids=False))]
+    unknown = []
+    for lp in loops:
+        m = Machine(f, 'big', False, report)
+        d = lambda z: strip(z).c[0] if strip(z).k == 'Unary' and strip(z).a['op'] == '&' else z
+
+        def call(c, node, m=m):
+            name = callee_name(c) or ''
+            a = c.c[1:]
+            width = m.env.get('nsupc')
+            tri = rect = None
+            if name.endswith('trsm_') and len(a) == 11:
+                tri = (a[4], a[7], a[8])
+            elif name.endswith('trsv_') and len(a) == 8:
+                tri = (a[3], a[4], a[5])
+            elif name.endswith(('lsolve', 'usolve')) and len(a) == 4:
+                tri = (a[1], a[2], a[0])
+            elif name.endswith('gemm_') and len(a) == 13:
+                rect = (a[2], a[4], a[6], a[7])         # m, k, A, lda
+            elif name.endswith('gemv_') and len(a) == 11:
+                rect = (a[1], a[2], a[4], a[5])
+            elif name.endswith('matvec') and len(a) == 6:
+                rect = (a[1], a[2], a[3], a[0])
+            if tri is not None:
+                n, A, lda = m.iv(d(tri[0])), m.lusup_coords(tri[1]), m.iv(d(tri[2]))
+                if A is None or n is None:
+                    return
+                nsite[0] += 1
+                m.need(not A[0] and not A[1], node, 'the triangular operand must be the first entry of the supernode block; `%s` is at column offset %s, row %s'
+                       % (pretty(tri[1])[:30], pshow(A[0]), pshow(A[1])))
+                m.need(m.peq(n, width) and m.peq(lda, ps(NS)), node, 'order = width of the supernode (%s), leading dimension = its row count; got %s, %s'
+                       % (pshow(width), pshow(n), pshow(lda)))
+            if rect is not None:
+                mm, k, A, lda = m.iv(d(rect[0])), m.iv(d(rect[1])), m.lusup_coords(rect[2]), m.iv(d(rect[3]))
+                if A is None or mm is None or k is None:
+                    return
+                nsite[0] += 1
+                m.need(not A[0] and m.peq(A[1], width), node, 'the rectangular operand must start below the triangle, at column 0, row = width of the supernode; `%s` is at '
+                       'column offset %s, row %s' % (pretty(rect[2])[:30], pshow(A[0]), pshow(A[1])))
+                m.need(m.peq(padd(mm, k), ps(NS)) and m.peq(k, width) and m.peq(lda, ps(NS)), node,
+                       'rows = row count - width, columns = width, leading dimension = row count; got %s, %s, %s' % (pshow(mm), pshow(k), pshow(lda)))
+        m.call = call
+        m.decide_orig = m.decide
+
+        def decide(cond, m=m):
+            c = strip(cond)
+            if c.k == 'Binary' and 'nsupc' in canon(c, ids=False) and c.a['op'] in ('==', '>'):
+                return c.a['op'] == '>'        # the multi-column branch is the one with dense kernels
+            return m.decide_orig(cond)
+        m.decide = decide
+        try:
+            m.exec(lp.c[3])
+        except Stop:
+            pass
+    inst = '%s:dense-kernel-operands' % fname
+    if nsite[0] < 2:
+        from ..run import AnalysisBroken
+        raise AnalysisBroken('%s: only %d dense kernel calls on supernode blocks recognised' % (fname, nsite[0]))
+    if not reps:
+        chk.ok(cid, inst, sample='%d dense kernel call(s) on supernode blocks' % nsite[0])
+    for (node, what) in list(reps.values())[:3]:
+        chk.violate(cid, '%s:%s' % (inst, re.sub(r'\W+', '_', what[:40])), loc(f, node), fname, what, cfgname=cfgname)
+    return nsite[0]
